@@ -313,3 +313,14 @@ def value_only(case, xflat):
     op = build(case["e"], dom)
     x, lay = position(dict(case, x=list(xflat)), op)
     return float(np.real(op(x).asnumpy()[()]))
+
+
+def evaluator(case):
+    """build the operator once; returns f(xflat) -> energy value (used by the finite-difference oracle)"""
+    dom = mkdom(case["dom"])
+    op = build(case["e"], dom)
+
+    def f(xflat):
+        x, _ = position(dict(case, x=list(xflat)), op)
+        return float(np.real(op(x).asnumpy()[()]))
+    return f
